@@ -43,7 +43,7 @@ class C06Bounded(Bounded):
         def queries(rule_docs):
             return TextQueryTestBackend().convert(SigmaCollection.from_dicts(copy.deepcopy(rule_docs)))
         # --- detection shapes x modifier chains x values
-        values = ["a", "a*", "a\\*b", "a\\\\b", "*", "", "100%", "x y", 5, 1.5, True, None, ["a", "b*"], ["a", 1, None], []]
+        values = ["a", "a*", "a\\*b", "a\\\\b", "*", "", "100%", "x y", 5, 1.5, True, None, ["a", "b*"], ["a", 1, None], [], "index.php\\?id=", "a\\?b*", "?a\\?", ["x\\?", "y?"]]
         keys = ["f", "f|contains", "f|startswith", "f|endswith", "f|contains|all", "f|re", "f|re|i", "f|re|i|m", "f|cidr", "f|cased", "f|base64", "f|base64offset|contains", "f|wide|base64", "f|windash", "f|expand",
                 "f|exists", "f|fieldref", "f|gt", "f|lte", "f|hour", "f|neq", "|contains", ""]
         specials = {"f|cidr": ["10.0.0.0/8", "::1/128"], "f|exists": [True, False], "f|gt": [5, 1.5], "f|lte": [3], "f|hour": [7], "f|fieldref": ["other", "o\\*x"], "f|re": ["a.*b", "x\\\\y", "^a\\*$", "a|b"], "f|re|i": ["ab+"], "f|re|i|m": ["ab*"]}
